@@ -87,6 +87,23 @@ def gen(chk):
     cases.append((hook + "r := ([%s, [%s]] == [%s, [%s]])\nr.p\n" % (a, ma, b, mb),
                   exp12 + "".join("%d\n" % i for i in range(1, 12)) + "true\n", "eqhooks:nested"))
     cases.append((hook + "r := [%s, %s].has?(%s)\nr.p\n" % ("{q: 1}", a, b), exp12 + "true\n", "eqhooks:has"))
+    # layout must not matter: arguments and keyword arguments spread over several lines
+    ml = [("fk(t(1),\n  k1: t(2),\n  k2: t(3))", [1, 2, 3]),
+          ("fk(t(1), k2: t(2),\n  k1: t(3))", [1, 2, 3]),
+          ("fk(\n  t(1),\n  k1: t(2),\n  k1: t(3),\n  k2: t(4)\n)", [1, 2, 3, 4]),
+          ("{|| \\_}(z: t(1),\n  y: t(2),\n  x: t(3),\n  w: t(4))", [1, 2, 3, 4]),
+          ("{|a: t(1),\n  b: t(2),\n  c: t(3)| [a, b, c]}()", [1, 2, 3]),
+          ("f3(t(1),\n  t(2),\n  t(3))", [1, 2, 3]),
+          ("[t(1),\n  t(2),\n  t(3)]", [1, 2, 3]),
+          ("{a: t(1),\n  b: t(2),\n  a: t(3)}", [1, 2, 3]),
+          ("%{1: t(1),\n  2: t(2),\n  1: t(3)}", [1, 2, 3])]
+    for body, ms in ml:
+        cases.append(('"before".p\nr := ' + body + '\n"after".p\nr.p\n', None, "multiline"))
+        cases.append(('"before".p\nr := ' + body + '\n"after".p\n', "".join("%s\n" % m for m in ["before"] + ms + ["after"]), "multiline"))
+    # a lonely chain on a nil receiver still evaluates what is written: chain argument and arguments, once, in order
+    for body, ms in [("nil&.foo(t(1), t(2))", [1, 2]), ("nil&.foo(t(1), k: t(2))", [1, 2]), ("t(1).{|x| nil}&.foo(t(2))", [1, 2]),
+                     ("[nil, nil]&@foo(t(1))", [1]), ("[nil]&@([t(1)])foo(t(2))", [1, 2]), ("nil&.foo(*[t(1)], **{k: t(2)})", [1, 2])]:
+        cases.append(('"before".p\nr := ' + body + '\n"after".p\n', "".join("%s\n" % m for m in ["before"] + ms + ["after"]), "lonely-nil"))
     # a variable call is a call: its arguments are evaluated once, in order (they are dropped today: open finding)
     cases.append(('"before".p\nr := 1.^f3(t(1), t(2))\n"after".p\n', "before\n1\n2\nafter\n", "varcall-args"))
     cases.append(('"before".p\nr := [1, 2]@^idf(t(1))\n"after".p\n', "before\n1\nafter\n", "varcall-args"))
